@@ -126,6 +126,7 @@ def explore(repo, contract, case, max_paths=400):
         I.flags = dict(ctx.get('flags', {}))
         I.protect = dict(H.protect)
         I.loop_specs = contract.loops(case, ctx) if hasattr(contract, 'loops') else {}
+        I.closure = dict(ctx.get('closure', {}))
         I.pc.extend(H.assumptions)
         I.assumptions.extend(H.assumptions)
         n0 = len(dec)
